@@ -20,6 +20,9 @@ type Val struct {
 	Untyped bool // untyped numeric constant
 	Tuple   []*Val
 	Closure *ast.FuncLit
+	// NaN, when non-empty, is the condition under which this floating-point
+	// value is a NaN (only a quotient 0/0 produces one); comparisons read it
+	NaN string
 	// heap-allocated local (address taken): S is the Ref
 }
 
